@@ -362,15 +362,16 @@ Section Loops.
 
   (* the API operations *)
   Context (I_suspend : forall s acc i, I s acc -> I (tm_suspend s i) acc).
-  Context (I_install : forall s acc i f s', I s acc ->
+  Context (allowed : nat -> bool).
+  Context (I_install : forall s acc i f s', I s acc -> allowed i = true ->
              (f = ttime s \/ exists t, f = upd (ttime s) i (Some t)) ->
              tm_install (set_ttime s f) i = Ok s' -> I s' acc).
   Context (I_now : forall s acc t, I s acc -> I (set_now s t) acc).
 
-  Lemma lift_I : forall s acc i f, I s acc -> (f = ttime s \/ exists t, f = upd (ttime s) i (Some t)) ->
+  Lemma lift_I : forall s acc i f, I s acc -> allowed i = true -> (f = ttime s \/ exists t, f = upd (ttime s) i (Some t)) ->
     forall s' ev, lift s (tm_install (set_ttime s f) i) = (s', ev) -> I s' (acc ++ ev).
   Proof.
-    intros s acc i f Hi Hf s' ev H. unfold lift in H.
+    intros s acc i f Hi Ha Hf s' ev H. unfold lift in H.
     destruct (tm_install (set_ttime s f) i) as [s2|e] eqn:T; inversion H; subst.
     - rewrite app_nil_r. eapply I_install; eassumption.
     - apply I_noise; [exact Hi | apply noise1; reflexivity].
@@ -379,20 +380,27 @@ Section Loops.
   Lemma lift_err_I : forall s acc e s' ev, I s acc -> lift s (Err e) = (s', ev) -> I s' (acc ++ ev).
   Proof. intros s acc e s' ev Hi H. inversion H; subst. apply I_noise; [exact Hi | apply noise1; reflexivity]. Qed.
 
-  Lemma step_I : forall s acc o s' ev, I s acc -> step guard jit c s o = (s', ev) -> I s' (acc ++ ev).
+  Definition op_allowed (o : op) : bool :=
+    match o with
+    | Install i _ | InstallAfter i _ | Reinstall i | Resume i => allowed i
+    | _ => true
+    end.
+
+  Lemma step_I : forall s acc o s' ev, I s acc -> op_allowed o = true ->
+    step guard jit c s o = (s', ev) -> I s' (acc ++ ev).
   Proof.
-    intros s acc o s' ev Hi H. destruct o; cbn [step] in H.
+    intros s acc o s' ev Hi Ha H. destruct o; cbn [step] in H; cbn [op_allowed] in Ha.
     - unfold do_install_when in H. destruct (t_kind (cfg_get c i)); [|eapply lift_err_I; eassumption].
-      eapply lift_I; [exact Hi | right; eexists; reflexivity | exact H].
+      eapply lift_I; [exact Hi | exact Ha | right; eexists; reflexivity | exact H].
     - unfold do_install_when in H. destruct (t_kind (cfg_get c i)); [|eapply lift_err_I; eassumption].
-      eapply lift_I; [exact Hi | right; eexists; reflexivity | exact H].
+      eapply lift_I; [exact Hi | exact Ha | right; eexists; reflexivity | exact H].
     - unfold do_reinstall in H. destruct (t_kind (cfg_get c i)) as [|iv off].
       + destruct (ttime s i); [|eapply lift_err_I; eassumption].
-        rewrite <- (set_ttime_id s) in H at 2. eapply lift_I; [exact Hi | left; reflexivity | exact H].
+        rewrite <- (set_ttime_id s) in H at 2. eapply lift_I; [exact Hi | exact Ha | left; reflexivity | exact H].
       + unfold rec_install in H. destruct (iv <=? 0); [eapply lift_err_I; eassumption|].
-        eapply lift_I; [exact Hi | right; eexists; reflexivity | exact H].
+        eapply lift_I; [exact Hi | exact Ha | right; eexists; reflexivity | exact H].
     - inversion H; subst. rewrite app_nil_r. apply I_suspend, Hi.
-    - rewrite <- (set_ttime_id s) in H at 2. eapply lift_I; [exact Hi | left; reflexivity | exact H].
+    - rewrite <- (set_ttime_id s) in H at 2. eapply lift_I; [exact Hi | exact Ha | left; reflexivity | exact H].
     - inversion H; subst. rewrite app_nil_r. apply I_now, Hi.
     - destruct (heap s); inversion H; subst; rewrite app_nil_r; [exact Hi | apply I_now, Hi].
     - destruct (get_next_task s) as [[t s1] z] eqn:G. destruct t as [e|].
@@ -405,13 +413,15 @@ Section Loops.
     - eapply run_loop_I; eassumption.
   Qed.
 
-  Lemma run_ops_I : forall ops s acc s' ev, I s acc -> run_ops guard jit c s ops = (s', ev) -> I s' (acc ++ ev).
+  Lemma run_ops_I : forall ops s acc s' ev, I s acc -> forallb op_allowed ops = true ->
+    run_ops guard jit c s ops = (s', ev) -> I s' (acc ++ ev).
   Proof.
-    induction ops as [|o ops IH]; intros s acc s' ev Hi H; cbn [run_ops] in H.
+    induction ops as [|o ops IH]; intros s acc s' ev Hi Ha H; cbn [run_ops] in H.
     - inversion H; subst. rewrite app_nil_r. exact Hi.
-    - destruct (step guard jit c s o) as [s1 ev1] eqn:S.
+    - cbn [forallb] in Ha. apply andb_prop in Ha. destruct Ha as [Ha1 Ha2].
+      destruct (step guard jit c s o) as [s1 ev1] eqn:S.
       destruct (run_ops guard jit c s1 ops) as [s2 ev2] eqn:R. inversion H; subst.
-      pose proof (step_I _ _ _ _ _ Hi S) as H1. specialize (IH _ _ _ _ H1 R).
+      pose proof (step_I _ _ _ _ _ Hi Ha1 S) as H1. specialize (IH _ _ _ _ H1 Ha2 R).
       rewrite <- app_assoc in IH. exact IH.
   Qed.
 End Loops.
